@@ -838,3 +838,84 @@ Proof.
 Qed.
 
 End VerifyRev.
+
+(* ====================================================================== *)
+(* 7. executePlugin: the verify-signature request and the nil answer       *)
+(* ====================================================================== *)
+
+Section Exec.
+Variable C : Type.
+Variable vsig : ptr plugin_VerifySignatureRequest -> ptr plugin_VerifySignatureResponse * option GoLib.err.
+Variable VP : Type.
+Variable raw : C -> list Z.
+
+(* what executePlugin makes of the plugin's answer: a nil response without error is an error
+   (fix 686cc56), anything else is handed on unchanged *)
+Definition exec_post (r out : ptr plugin_VerifySignatureResponse * option GoLib.err) : Prop :=
+  if is_none (snd r) && ptr_is_nil (fst r) then fst out = PNil /\ snd out <> None else out = r.
+
+Lemma exec_loop2 K l : forall acc,
+  gen_verifier_executePlugin_loop2 C raw K l acc = K (acc ++ map raw l).
+Proof.
+  induction l as [|c l IH]; intros acc; [cbn; now rewrite app_nil_r|].
+  cbn [gen_verifier_executePlugin_loop2 map]. cbv zeta. rewrite IH, <- app_assoc. reflexivity.
+Qed.
+
+Definition key_text (a : signature_Attribute) : string := fst (any_str "string" (Attribute_Key a)).
+
+Lemma exec_loop1 payload si ids caps cfg : forall l atp ext,
+  Forall (fun a => exists k, Attribute_Key a = GoLib.AStr "string" k) l ->
+  exists req out,
+    gen_verifier_executePlugin_loop1 C vsig raw payload si ids caps cfg l atp ext = Some out
+    /\ exec_post (vsig (PNew req)) out
+    /\ TrustPolicy_SignatureVerification (VerifySignatureRequest_TrustPolicy req) = caps
+    /\ TrustPolicy_TrustedIdentities (VerifySignatureRequest_TrustPolicy req) = ids
+    /\ Signature_UnprocessedAttributes (VerifySignatureRequest_Signature req) = atp ++ map key_text l
+    /\ VerifySignatureRequest_PluginConfig req = cfg.
+Proof.
+  induction l as [|a l IH]; intros atp ext F.
+  - cbn [gen_verifier_executePlugin_loop1]. cbv zeta. rewrite exec_loop2.
+    destruct (String.eqb (SignedAttributes_SigningScheme (SignerInfo_SignedAttributes C si)) "notary.x509.signingAuthority");
+      (match goal with |- context [vsig (PNew ?r)] => exists r; destruct (vsig (PNew r)) as [resp e] end;
+       unfold exec_post; cbn [fst snd];
+       destruct (is_none e && ptr_is_nil resp); eexists; (split; [reflexivity|]);
+       cbn [fst snd map VerifySignatureRequest_TrustPolicy VerifySignatureRequest_Signature VerifySignatureRequest_PluginConfig
+            TrustPolicy_SignatureVerification TrustPolicy_TrustedIdentities Signature_UnprocessedAttributes];
+       rewrite ?app_nil_r; repeat split; try reflexivity; discriminate).
+  - inversion F as [|? ? (k & K) F']; subst.
+    cbn [gen_verifier_executePlugin_loop1]. cbv zeta. rewrite K. cbn [any_str_opt any_str String.eqb Ascii.eqb Bool.eqb].
+    destruct (IH (atp ++ [k]) (map_set String.eqb k (Attribute_Value a) ext) F') as (req & out & E & P & H1 & H2 & H3 & H4).
+    exists req, out. split; [exact E|]. split; [exact P|]. repeat split; try assumption.
+    rewrite H3, <- app_assoc. cbn [map app]. unfold key_text at 2. rewrite K. reflexivity.
+Qed.
+
+(* executePlugin: with a plugin and an envelope, the plugin is asked exactly once, for exactly the
+   capabilities to verify, with the trusted identities of the statement, and is handed the keys of
+   getNonPluginExtendedCriticalAttributes = [other_keys] of the scenario as attributes to process
+   ([o_exec] of the model's observation); a nil answer without error is refused *)
+Lemma gen_executePlugin_spec plugin p caps envelope env ids cfg :
+  ptr_val plugin = Some p -> ptr_val envelope = Some env ->
+  exists req out,
+    gen_verifier_executePlugin C vsig VP raw plugin caps envelope ids cfg = Some out
+    /\ exec_post (vsig (PNew req)) out
+    /\ TrustPolicy_SignatureVerification (VerifySignatureRequest_TrustPolicy req) = caps
+    /\ TrustPolicy_TrustedIdentities (VerifySignatureRequest_TrustPolicy req) = ids
+    /\ Signature_UnprocessedAttributes (VerifySignatureRequest_Signature req)
+       = map fst (other_of (SignedAttributes_ExtendedAttributes (SignerInfo_SignedAttributes C (EnvelopeContent_SignerInfo C env))))
+    /\ VerifySignatureRequest_PluginConfig req = cfg.
+Proof.
+  intros HP HE. unfold gen_verifier_executePlugin. rewrite HP, HE. cbv zeta. cbn [ptr_val].
+  destruct (gen_getNonPlugin_equiv C (EnvelopeContent_SignerInfo C env)) as [M F].
+  destruct (exec_loop1 (EnvelopeContent_Payload C env) (EnvelopeContent_SignerInfo C env) ids caps cfg _ [] [] F)
+    as (req & out & E & P & H1 & H2 & H3 & H4).
+  exists req, out. split; [exact E|]. split; [exact P|]. repeat split; try assumption.
+  rewrite H3. cbn [app]. rewrite <- M, map_map. reflexivity.
+Qed.
+
+(* without a plugin nothing is asked: an error *)
+Lemma gen_executePlugin_nil plugin caps envelope ids cfg :
+  ptr_val plugin = None ->
+  exists e, gen_verifier_executePlugin C vsig VP raw plugin caps envelope ids cfg = Some (PNil, Some e).
+Proof. intros HP. unfold gen_verifier_executePlugin. rewrite HP. eexists. reflexivity. Qed.
+
+End Exec.
